@@ -417,7 +417,9 @@ func (c *VerifSimClient) Close() {
 
 type verifSimDedicated struct{ *VerifSimClient }
 
-func (d *verifSimDedicated) SetPubSubHooks(hooks PubSubHooks) <-chan error { return make(chan error, 1) }
+func (d *verifSimDedicated) SetPubSubHooks(hooks PubSubHooks) <-chan error {
+	return make(chan error, 1)
+}
 func (d *verifSimDedicated) SetOnInvalidations(fn func([]RedisMessage)) <-chan error {
 	d.Opt.OnInvalidations = fn
 	return make(chan error, 1)
